@@ -137,7 +137,7 @@ func init() {
 		Assumptions: []string{"for sub-queries only the set symbol is judged (which store the inner symbols must be public for is not stated)", "id, the path-prefixed field and the fk field can only be registered public through the public API"},
 		Plan: func(tier core.Tier, seed int64) int {
 			if tier == core.Thorough {
-				return 3000
+				return 40000
 			}
 			return 160
 		},
